@@ -23,7 +23,7 @@ StepFails(e) ==
   Chk("C20_ExactlyRequestedFiles", e.exc # "" \/ ToSet(e.newfiles) = Requested(e)) \cup
   Chk("C20_NoOtherFileTouched", e.otherfiles = 0)
 StepMarks(e) ==
-  Mark("N_" \o e.upto, TRUE) \cup Mark("N_class_" \o e.cls, TRUE) \cup Mark("N_save", e.hasstem) \cup Mark("N_show", e.show)
+  Mark("N_" \o e.upto, TRUE) \cup Mark("N_class_" \o e.cls, TRUE) \cup Mark("N_save", e.hasstem) \cup Mark("N_show", e.show) \cup Mark("N_glob_" \o e.glob, TRUE)
   \cup Mark("N_refmetar", e.hasref) \cup Mark("N_showceilos", e.show_ceilos) \cup Mark("N_multifmt", Len(e.fmts) > 1)
 Init == LET all == Sessions IN \E i \in DOMAIN all : tid = i /\ cur = all[i] /\ l = 0 /\ fails = {} /\ marks = {}
 Next == /\ l < Len(cur.events)
